@@ -278,9 +278,14 @@ def parse_instr(line):
             if c.peek()[1]!='align' and c.peek()[1]!='addrspace': n=parse_tv(c)
         ins.ty=Ty('ptr',elem=t); ins.ops=[n]; ins.extra={'aty':t}
     elif op=='load':
-        c.accept('atomic'); c.accept('volatile'); t=parse_type(c); c.expect(','); p=parse_tv(c); ins.ty=t; ins.ops=[p]
+        at=c.accept('atomic'); c.accept('volatile'); t=parse_type(c); c.expect(','); p=parse_tv(c); ins.ty=t; ins.ops=[p]; ins.extra={'atomic':at}
     elif op=='store':
-        c.accept('atomic'); c.accept('volatile'); v=parse_tv(c); c.expect(','); p=parse_tv(c); ins.ty=VOID; ins.ops=[v,p]
+        at=c.accept('atomic'); c.accept('volatile'); v=parse_tv(c); c.expect(','); p=parse_tv(c); ins.ty=VOID; ins.ops=[v,p]; ins.extra={'atomic':at}
+    elif op=='atomicrmw':
+        c.accept('volatile'); rmw=c.next()[1]; p=parse_tv(c); c.expect(','); v=parse_tv(c); ins.ty=v.ty; ins.ops=[p,v]; ins.extra={'rmw':rmw}
+    elif op=='cmpxchg':
+        c.accept('weak'); c.accept('volatile'); p=parse_tv(c); c.expect(','); e=parse_tv(c); c.expect(','); n=parse_tv(c)
+        ins.ty=Ty('struct',fields=(e.ty,I1)); ins.ops=[p,e,n]
     elif op=='getelementptr':
         c.accept('inbounds'); bt=parse_type(c); c.expect(','); ops=[]
         while True:
